@@ -58,7 +58,34 @@ impl core::ops::BitXor for Sgn0Result {
     #[verifier::external_body]
     pub fn pow(&self, exp: [u64; 6]) -> (ret: Fq2)
         requires limbs_val(exp@) == {hex(QM3D4)}nat || limbs_val(exp@) == {hex(QM1D2)}nat
+        ensures ret.v() == f2pow(self.v(), limbs_val(exp@) as int)
     {{ unimplemented!() }}
+}}
+// powers and the ring laws of the schoolbook product that the algebra of Algorithm 9 needs (Fq2 is a commutative ring; the laws are polynomial identities in the coefficients)
+pub uninterp spec fn f2pow(x: F2, e: int) -> F2;
+#[verifier::external_body]
+pub proof fn ax_f2pow_mul(x: F2, a: int, b: int) requires a >= 0, b >= 0 ensures f2mul(f2pow(x, a), f2pow(x, b)) == f2pow(x, a + b) {{}}
+#[verifier::external_body]
+pub proof fn ax_f2pow_one(x: F2) requires f2in(x) ensures f2pow(x, 1) == x {{}}
+#[verifier::external_body]
+pub proof fn ax_f2mul_comm(a: F2, b: F2) ensures f2mul(a, b) == f2mul(b, a) {{}}
+#[verifier::external_body]
+pub proof fn ax_f2mul_assoc(a: F2, b: F2, c: F2) ensures f2mul(f2mul(a, b), c) == f2mul(a, f2mul(b, c)) {{}}
+#[verifier::external_body]
+pub proof fn ax_f2mul_one(a: F2) requires f2in(a) ensures f2mul(a, f2one()) == a, f2mul(f2one(), a) == a {{}}
+#[verifier::external_body]
+pub proof fn ax_f2mul_neg1(a: F2) requires f2in(a) ensures f2mul(a, f2neg(f2one())) == f2neg(a), f2mul(f2neg(f2one()), a) == f2neg(a), f2neg(f2neg(a)) == a, f2in(f2neg(a)) {{}}
+#[verifier::external_body]
+pub proof fn ax_u_squared() ensures f2mul(f2(0, 1), f2(0, 1)) == f2neg(f2one()) {{}}
+// (x y)(x y) == (x x)(y y)
+pub proof fn lemma_sq_prod(x: F2, y: F2) ensures f2mul(f2mul(x, y), f2mul(x, y)) == f2mul(f2mul(x, x), f2mul(y, y))
+{{
+    ax_f2mul_assoc(x, y, f2mul(x, y)); ax_f2mul_assoc(y, x, y); ax_f2mul_comm(y, x); ax_f2mul_assoc(x, y, y); ax_f2mul_assoc(x, x, f2mul(y, y));
+}}
+// what Algorithm 9 returns in terms of alpha = a^((q-1)/2): x^2 == e(a) * a
+pub open spec fn sqrt_e(a: F2) -> F2 {{
+    let al = f2pow(a, {hex(QM1D2)}int);
+    if al == f2neg(f2one()) {{ f2one() }} else {{ f2mul(f2sq(f2pow(f2add(al, f2one()), {hex(QM1D2)}int)), al) }}
 }}""")
     u.add(u.real_const('fq', 'NEGATIVE_ONE'))
     u.add("impl Fq2 {")
@@ -82,8 +109,35 @@ impl core::ops::BitXor for Sgn0Result {
             ghost = (f" proof {{ assert([{lit}]@ =~= seq![{lit}]); assert(limbs_val(seq![{lit}]) == {hex(val)}nat) by(compute); }} ")
             out = out[:st] + ghost + out[st:]
         return out
-    u.add(u.real_fn('fq2', 'impl SqrtField for Fq2', 'sqrt', "    ensures self.v() == f2zero() ==> (match ret { Some(b) => b.v() == f2zero(), None => false })", vis='pub',
-                    body_edit=sqrt_edit))
+    def sqrt_proof(body):
+        b = sqrt_edit(body)
+        E1, E2 = hex(QM3D4) + 'int', hex(QM1D2) + 'int'
+        # alpha = a1^2 a = a^((q-1)/2);  x0 = a1 a, x0^2 = alpha a
+        b = b.replace('alpha.mul_assign(self);', f"""alpha.mul_assign(self); proof {{ let a = self.v(); lemma_f2in(self); reveal(f2sq);
+            ax_f2pow_mul(a, {E1}, {E1}); ax_f2pow_one(a); ax_f2pow_mul(a, 2 * {E1}, 1); assert(2 * {E1} + 1 == {E2}) by(compute); assert(alpha.v() == f2pow(a, {E2})); }}
+            let ghost al = alpha.v(); let ghost p1 = a1.v();""", 1)
+        b = b.replace('a1.mul_assign(self);', f"""a1.mul_assign(self); let ghost x0 = a1.v();
+            proof {{ let a = self.v(); reveal(f2sq); lemma_sq_prod(p1, a); ax_f2mul_assoc(f2mul(p1, p1), a, a); assert(f2mul(x0, x0) == f2mul(al, a)); }}""", 1)
+        b = b.replace('a1.mul_assign(&Fq2 { c0: Fq::zero(), c1: Fq::one() });', """a1.mul_assign(&Fq2 { c0: Fq::zero(), c1: Fq::one() });
+            proof { let a = self.v(); reveal(f2sq); lemma_f2in(self); let uu = f2(0, 1); lemma_sq_prod(x0, uu); ax_u_squared();
+                    ax_f2mul_neg1(a); ax_f2mul_neg1(f2neg(a)); ax_f2mul_one(a);
+                    assert(f2sq(a1.v()) == f2mul(f2mul(al, a), f2neg(f2one()))); }""", 1)
+        b = b.replace('a1.mul_assign(&alpha);', """a1.mul_assign(&alpha);
+            proof { let a = self.v(); reveal(f2sq); let bb = alpha.v(); lemma_sq_prod(x0, bb);
+                    ax_f2mul_comm(f2mul(al, a), f2mul(bb, bb)); ax_f2mul_assoc(f2mul(bb, bb), al, a); }""", 1)
+        b = b.replace('let neg1 = Fq2 { c0: NEGATIVE_ONE, c1: Fq::zero() };', """let neg1 = Fq2 { c0: NEGATIVE_ONE, c1: Fq::zero() };
+            proof { reveal(f2neg); reveal(f2one); ax_neg_one_value(); ax_q_value(); lemma_fneg_val(0); lemma_fneg_val(1); assert(neg1.v() == f2neg(f2one())); }""", 1)
+        return b
+    u.add("}")
+    u.add("""// the constant NEGATIVE_ONE is -1 (closed term, checked in unit consts)
+#[verifier::external_body]
+pub proof fn ax_neg_one_value() ensures NEGATIVE_ONE.v() == Q() - 1 {}""")
+    u.add("impl Fq2 {")
+    u.add(u.real_fn('fq2', 'impl SqrtField for Fq2', 'sqrt', """    ensures match ret {
+        // None is only returned for non-zero input; Some(x): x^2 == e(a) * a with e(a) built from alpha = a^((q-1)/2) (A8' turns e(a) into 1)
+        None => self.v() != f2zero(),
+        Some(x) => (self.v() == f2zero() ==> x.v() == f2zero()) && (self.v() != f2zero() ==> f2sq(x.v()) == f2mul(sqrt_e(self.v()), self.v())),
+    }""", vis='pub', body_edit=sqrt_proof))
     u.add("}")
     u.add("""impl vstd::std_specs::cmp::PartialOrdSpecImpl for Fq2 {
     open spec fn obeys_partial_cmp_spec() -> bool { true }
